@@ -24,7 +24,7 @@ fn main() -> anyhow::Result<()> {
     match prop {
         "C01" => c01::run(seed, n, &out, thorough, "C01", "Check.C01"),
         "C02" => c02::run(seed, n, &out, thorough),
-        "C07" | "C13" | "C15" | "C16" | "C17" => storeprops::run(prop, seed, n, &out, thorough),
+        "C07" | "C13" | "C15" | "C16" | "C17" | "C18" => storeprops::run(prop, seed, n, &out, thorough),
         "C09" => c09::run(seed, n, &out, thorough),
         "C10" => c10::run(seed, n, &out, thorough),
         "C12" | "C14" => actorops::run(prop, seed, n, &out, thorough),
